@@ -1,5 +1,6 @@
 import CalicoVerif.Model.C43
 import CalicoVerif.Proofs.C43
+import CalicoVerif.Proofs.C43Canon
 /-!
 C43 — Cluster routes take the path their pool's encapsulation requires.
 
@@ -13,10 +14,14 @@ Property theorems only (helper lemmas: `CalicoVerif.Proofs.C43`).
 * `blackhole_never_covers_local_wep` — over ALL histories of the manager, a blackhole route never
   has a /32 destination, and the route the resolver emits for a local workload's own address is
   never classified as a local block.
-* `arrival_order_independent_partial` — what is proved of order independence (manager level +
-  purity of the resolver's per-CIDR computation); the history-level completeness of the resolver's
-  dirty marking is not proved (checked by the oracle on the real code);
-  `arrival_order_v4cidr_zero_fixed` is the regression witness of a defect the oracle found.
+* `dirty_marking_complete` — inductive invariant over the whole resolver state machine: after any
+  history of node/pool/block updates every block / borrowed-address route downstream is the route
+  computed from the CURRENT state (every change was re-sent).
+* `arrival_order_independent` — two histories with the same final datastore (non-overlapping blocks)
+  send the same RouteUpdate for every such CIDR; `manager_order_independent` — the routeManager's
+  stored routes are a function of the last message per destination.
+* `arrival_order_v4cidr_zero_fixed` — regression witness of a defect the oracle found (repaired);
+  `stale_v4_vtep_witness` — an open manager-level finding.
 -/
 namespace CalicoVerif.C43
 
@@ -450,23 +455,15 @@ theorem agree_fold (evs : List Event) (m : RM) (sent : List (Cidr × RouteUpdate
     rw [applyEvents_cons]
     exact ih _ _ (agree_onEvent m sent e h)
 
-/-- **arrival_order_independent — what is proved.**
-(a) routeManager: after ANY two sequences of route updates/removals that leave the downstream map
-(dst ↦ last RouteUpdate) the same, a fresh manager holds the same `routesByDest` and
-`localIPAMBlocks` entry for every destination — namely the last update for that destination, kept
-iff `stores` / `routeIsLocalBlock` says so — and `updateRoutes` maps each stored route through the
-pure function `targetOf`; so the programmed kinds do not depend on the order in which the
-resolver's messages arrived.
-(b) resolver: whatever `step` (re)sends for a CIDR is `routeOfPath` of the CURRENT trie path and node
-table (definitional in the model, tied to the code by the correspondence), and the pool type / the
-same-subnet flag / the owner are the functions of the path given by `routeOfPath_poolType` and
-`routeOfPath_block`.
-NOT proved: that the resolver's dirty marking re-sends every CIDR whose `routeOfPath` changed (an
-inductive invariant over all update histories of the full resolver state machine).  Two violations
-of it were found by the harness oracle and repaired in the repo (commits 5f87955, 7bc5b47; see
-`arrival_order_v4cidr_zero_fixed`); the oracle (fresh instance fed the final state, two orders)
-checks it on the real code on every run. -/
-theorem arrival_order_independent_partial (pt me eth : Nat) (evs1 evs2 : List Event)
+/-- **manager_order_independent.**  After ANY two sequences of route updates/removals that leave the
+downstream map (dst ↦ last RouteUpdate) the same, a fresh routeManager holds the same
+`routesByDest` and `localIPAMBlocks` entry for every destination — namely the last update for that
+destination, kept iff `stores` / `routeIsLocalBlock` says so — and `updateRoutes` maps each stored
+route through the pure function `targetOf`; so the programmed kinds do not depend on the order in
+which the resolver's messages arrived.  Together with `arrival_order_independent` (the resolver's
+messages themselves do not depend on the order of the datastore updates) this is the property's
+"whatever order the node, pool and block updates arrive in". -/
+theorem manager_order_independent (pt me eth : Nat) (evs1 evs2 : List Event)
     (hsame : ∀ d, aget (applyEvents [] evs1) d = aget (applyEvents [] evs2) d) (d : Cidr) :
     let m1 := evs1.foldl RM.onEvent { pt := pt, me := me, eth0Addr := eth }
     let m2 := evs2.foldl RM.onEvent { pt := pt, me := me, eth0Addr := eth }
@@ -497,6 +494,96 @@ theorem arrival_order_independent_partial (pt me eth : Nat) (evs1 evs2 : List Ev
   · show aget m1.localBlocks d = aget m2.localBlocks d
     rw [a1.2, a2.2, hsame d]
 
+/-! ### the resolver: dirty-marking completeness and order independence -/
+
+/-- **dirty_marking_complete.**  After ANY history of node, pool and block updates (each followed
+by the deferred `flush`), for every CIDR that carries a block / borrowed-address route and nothing
+else at its own CIDR (`Tracked`), the RouteUpdate the dataplane last received for it IS the route
+`flush` would compute from the resolver's CURRENT trie and node table: every change of a computed
+route has been re-sent.  (Inductive invariant `Inv` over the whole modelled state machine:
+`RouteTrie.updateCIDR`, pool "mark children dirty", block "mark descendants dirty", the local-CIDR
+same-subnet re-evaluation, tunnel refs, host entries, `nodeRoutes`, `flush`.) -/
+theorem dirty_marking_complete (me : Nat) (ops : List Op) (hok : ∀ op ∈ ops, op.ok) :
+    let r := St.run { me := me } [] ops
+    ∀ c n, Tracked r.1 c n → c ≠ Cidr.host 0 → aget r.2 c = some (r.1.route c) :=
+  fun c n ht h0 => (run_inv ops _ _ hok (inv_init me)).cur c n ht h0
+
+theorem view_wasSent (s : St) (k : Cidr) : (s.view k).wasSent = false := rfl
+
+theorem routeInfo_ext (a b : RouteInfo) (h1 : a.pool = b.pool) (h2 : a.block = b.block) (h3 : a.hosts = b.hosts)
+    (h4 : a.refs = b.refs) (h5 : a.wasSent = b.wasSent) : a = b := by
+  cases a; cases b; simp_all
+
+theorem option_eq_of_iff {α} (a b : Option α) (h : ∀ x, a = some x ↔ b = some x) : a = b := by
+  cases a with
+  | none =>
+    cases b with
+    | none => rfl
+    | some y => exact absurd ((h y).2 rfl) (by simp)
+  | some x => exact ((h x).1 rfl).symm
+
+theorem nodeInOurSubnet_congr (me : Nat) (nodes nodes' : List (Nat × NodeInfo)) (n : Nat)
+    (h : ∀ m, aget nodes' m = aget nodes m) : nodeInOurSubnet me nodes' n = nodeInOurSubnet me nodes n := by
+  unfold nodeInOurSubnet; rw [h n, h me]
+
+/-- **arrival_order_independent.**  Take ANY two histories of node, pool and block updates
+(creations, changes, deletions, in any order and any number) during which IPAM blocks never overlap
+(`DisjAlong`: no CIDR is routed by two blocks), and which end in the same datastore state — the same
+last value per node, per pool and per block (`dsOf`).  Then for every CIDR that carries a block /
+borrowed-address route (and no host / workload / tunnel entry at that very CIDR) the dataplane has
+received the SAME RouteUpdate in both — pool type, owner, owner's address, same-subnet flag,
+borrowed flag and all — hence (by `manager_order_independent` and `route_kind_correct`) the same kind
+of route is programmed.  Not covered: a CIDR that also is a node's own or tunnel address (e.g. a
+borrowed tunnel IP) and histories containing workload endpoint updates; those are checked by the
+fresh-instance oracle on the real code only. -/
+theorem arrival_order_independent (me : Nat) (ops1 ops2 : List Op)
+    (ok1 : ∀ op ∈ ops1, op.ok) (ok2 : ∀ op ∈ ops2, op.ok)
+    (hd1 : DisjAlong DS.empty ops1) (hd2 : DisjAlong DS.empty ops2)
+    (hn : ∀ m, (dsOf ops1).nodes m = (dsOf ops2).nodes m)
+    (hp : ∀ k, (dsOf ops1).pools k = (dsOf ops2).pools k)
+    (hb : ∀ k, (dsOf ops1).blocks k = (dsOf ops2).blocks k) :
+    let r1 := St.run { me := me } [] ops1
+    let r2 := St.run { me := me } [] ops2
+    ∀ c n, Tracked r1.1 c n → Tracked r2.1 c n → c ≠ Cidr.host 0 → aget r1.2 c = aget r2.2 c := by
+  intro r1 r2 c n t1 t2 h0
+  have i1 := run_inv ops1 _ _ ok1 (inv_init me)
+  have i2 := run_inv ops2 _ _ ok2 (inv_init me)
+  have c1 : Canon _ (dsOf ops1) := canon_run ops1 _ [] _ ok1 (canon_init me) disj_empty hd1
+  have c2 : Canon _ (dsOf ops2) := canon_run ops2 _ [] _ ok2 (canon_init me) disj_empty hd2
+  rw [i1.cur c n t1 h0, i2.cur c n t2 h0]
+  congr 1
+  have hme1 : r1.1.me = me := run_me ops1 _ _ ok1
+  have hme2 : r2.1.me = me := run_me ops2 _ _ ok2
+  have hnodes : ∀ m, aget r1.1.nodes m = aget r2.1.nodes m := by
+    intro m; rw [c1.nodes m, c2.nodes m]; exact hn m
+  have hroute : ∀ b k, (dsOf ops1).routeAt b k = (dsOf ops2).routeAt b k := by
+    intro b k; unfold DS.routeAt; rw [hb b]
+  have hblock : ∀ k, (r1.1.view k).block = (r2.1.view k).block := by
+    intro k
+    apply option_eq_of_iff
+    intro x
+    rw [c1.c2 k x, c2.c2 k x]
+    constructor
+    · rintro ⟨b, h⟩; exact ⟨b, (hroute b k).symm.trans h⟩
+    · rintro ⟨b, h⟩; exact ⟨b, (hroute b k).trans h⟩
+  have hpool : ∀ k, (r1.1.view k).pool = (r2.1.view k).pool := by
+    intro k; rw [c1.poolv k, c2.poolv k]; exact hp k
+  have hl : c.len ≤ 32 := i1.aux.l32 c (view_block_ne_empty _ n t1.1)
+  have hpath : fullPath r1.1.view c = fullPath r2.1.view c := by
+    apply fullPath_congr
+    · exact routeInfo_ext _ _ (hpool c) (hblock c) (t1.2.1.trans t2.2.1.symm) (t1.2.2.trans t2.2.2.symm) rfl
+    · intro l hlt
+      have p1 := plain_fullPath r1.1 i1.aux c hl (ancKey c l, r1.1.view (ancKey c l))
+        (List.mem_map.2 ⟨l, List.mem_range.2 hlt, rfl⟩)
+      have p2 := plain_fullPath r2.1 i2.aux c hl (ancKey c l, r2.1.view (ancKey c l))
+        (List.mem_map.2 ⟨l, List.mem_range.2 hlt, rfl⟩)
+      exact routeInfo_ext _ _ (hpool _) (hblock _) (p1.1.trans p2.1.symm) (p1.2.trans p2.2.symm) rfl
+  unfold St.route
+  rw [hpath, hme1, hme2]
+  apply routeOfPath_nodes_congr
+  intro n' _
+  exact ⟨hnodes n', nodeInOurSubnet_congr me _ _ n' hnodes⟩
+
 /-! ### regression witness of a repaired defect -/
 
 /-- node 3 = 10.0.1.13/24, local node 1 = 10.0.1.11/24 (or v6-only: no IPv4 address/CIDR). -/
@@ -513,6 +600,18 @@ overwritten by the dual-stack one). -/
 def wHistory : List Op := [wPool, wBlock, wNode3, wNode1v6, wNode1v4]
 def wFresh : List Op := [wPool, wBlock, wNode3, wNode1v4]
 
+/-- non-vacuity of `arrival_order_independent`: two different histories (the second one creates the
+pool last, re-homes the block and flaps the local node) with the same final datastore, a tracked
+CIDR in both, and non-overlapping blocks throughout. -/
+example :
+    let h1 : List Op := [wPool, wBlock, wNode3, wNode1v4]
+    let h2 : List Op := [.block ⟨3232235840, 26⟩ (some 5) [], wNode1v6, wNode3, wBlock, wNode1v4, wPool]
+    Tracked (St.run { me := 1 } [] h1).1 ⟨3232235840, 26⟩ 3 ∧ Tracked (St.run { me := 1 } [] h2).1 ⟨3232235840, 26⟩ 3 ∧
+    aget (St.run { me := 1 } [] h1).2 ⟨3232235840, 26⟩ = aget (St.run { me := 1 } [] h2).2 ⟨3232235840, 26⟩ ∧
+    ((aget (St.run { me := 1 } [] h2).2 ⟨3232235840, 26⟩).map (·.sameSubnet) = some true) := by
+  unfold Tracked
+  decide
+
 /-- Regression witness for the defect repaired by repo commit 7bc5b47 (oracle signature
 `order-dep-local-v4cidr-zero`, replay corpus/C43/local-v4cidr-zero.ops): the local node is first
 known without an IPv4 CIDR and then gains 10.0.1.11/24.  Before the repair `onNodeUpdate` compared
@@ -523,6 +622,27 @@ theorem arrival_order_v4cidr_zero_fixed :
     let blk : Cidr := ⟨3232235840, 26⟩
     ((aget ((St.run { me := 1 } [] wHistory).2) blk).map (·.sameSubnet) = some true) ∧
     ((aget ((St.run { me := 1 } [] wFresh).2) blk).map (·.sameSubnet) = some true) := by
+  decide
+
+
+/-! ### a stale IPv4 VTEP (finding, routeManager / vxlan manager) -/
+
+/-- a remote block of node 2 in a VXLAN pool, as the resolver sends it. -/
+def wVxRoute : RouteUpdate :=
+  { dst := ⟨3232235584, 26⟩, types := tRemoteWorkload, poolType := ptVXLAN, dstNode := some 2, dstNodeIp := 167772172 }
+
+/-- **manager-level order dependence (finding `order-dep-stale-v4-vtep`)**: the IPv4 vxlan manager
+ignores a VTEP update that has no IPv4 address WITHOUT forgetting the IPv4 VTEP it already holds
+(`vxlan_mgr.go` OnUpdate early return; in the product the EventSequencer coalesces the
+VXLANResolver's remove+update into that single update).  History: node 2's VTEP 192.168.0.2 is
+learnt, then node 2 keeps only an IPv6 VTEP — the block stays routed via the stale VTEP; a manager
+that only ever saw the final VTEP message programs nothing.  Replay: corpus/C43/stale-v4-vtep.ops. -/
+theorem stale_v4_vtep_witness :
+    let m0 : RM := { pt := ptVXLAN, me := 0, eth0Addr := 167772170, parent := true }
+    let hist := (((m0.onVtep 2 (some (3232235522, 167772172))).onVtep 2 (some (0, 167772172))).onRouteUpdate wVxRoute)
+    let fresh := ((m0.onVtep 2 (some (0, 167772172))).onRouteUpdate wVxRoute)
+    hist.targetOf wVxRoute = some (false, { cidr := ⟨3232235584, 26⟩, typ := .vxlan, gw := 3232235522 }) ∧
+    fresh.targetOf wVxRoute = none := by
   decide
 
 end CalicoVerif.C43
